@@ -1,8 +1,15 @@
 """C14 — bridge deposits mint once, conditionally; withdrawals burn what they attest."""
-import histcheck
+import histcheck, vf
 
 PID = "C14"
 COMMON = ["hist", "-proj", "bank,bridge,aggs", "-boundary", "-gov", "-jumps", "-valstatus", "-bbias", "3", "-stories", "100", "-maxops", "5"]
+
+def inductive(stats):
+    """unbounded steps / aggregates / checkpoints / time: Apalache establishes the inductive invariant of BridgeInd"""
+    wall = vf.apalache_inductive(PID, "BridgeInd")
+    return {"inductive_invariant": {"tool": "apalache-mc 0.58", "module": "BridgeInd", "wall_s": round(wall, 1),
+                                    "established": "Init => IndInv, IndInv /\\ Next => IndInv': a deposit id is minted at most once and only from an aggregate >= 12 h old that met the threshold in force when reported, for any number of steps, aggregates, checkpoints and any passage of time"}}
+
 
 def run(tier, seed, replay):
     return histcheck.run(
@@ -13,4 +20,4 @@ def run(tier, seed, replay):
         ["deposit and withdrawal values are decoded by the harness with the Go ABI library (projection); byte-exact layouts are decided in C15",
          "bridge deposit rounds are made short by a governance update of the trbbridge spec window, otherwise no deposit aggregates within a history",
          "design level (BridgeSM_MC): 10^12 is represented by 10, two deposit ids with up to two aggregates each, two checkpoints, times around the 12-hour boundary"],
-        mc=[("BridgeSM_MC", "BridgeSM_MC.cfg", "BridgeSM_MC_thorough.cfg", 8)])
+        mc=[("BridgeSM_MC", "BridgeSM_MC.cfg", "BridgeSM_MC_thorough.cfg", 8)], extra_cov=None if replay else inductive)
